@@ -492,7 +492,7 @@ ProdNear(dv, x, r) ==
   LET s    == IF x.e < 0 THEN -x.e ELSE 0
       prod == B!Mk(dv.neg # x.neg, B!MulMag(B!MulMag(dv.m, x.m), B!Pow2Mag(s + x.e)))     \* d * x * 2^s
       rs   == B!Mk(r.neg, B!MulMag(r.m, B!Pow2Mag(s)))
-      tol  == B!AddMag(B!Pow2Mag(s), B!DivModMag(prod.m, B!Pow2Mag(50))[1])
+      tol  == B!AddMag(B!Pow2Mag(s), Dy!Shr(prod.m, 50)[1])
   IN  B!CmpMag(B!Sub(rs, prod).m, tol) <= 0
 (* Sharper, where it is well defined.  The factor has a decimal precision p <= 22 when the double x * 10^p   *)
 (* is a whole number q (10^p is exact up to 10^22): the implementation's documented method is the exact      *)
@@ -500,9 +500,9 @@ ProdNear(dv, x, r) ==
 (* double (|d| < 2^53 ns) is the float product rounded to nearest then truncated (MulRN).  Either is         *)
 (* admitted; another value within the tolerance is admitted only where neither is defined (no such p, the    *)
 (* scaled product beyond an i128, or |d| >= 2^53 where the float product depends on how d is rounded).       *)
-ScaledF64(x, p) == IF x.e >= 0 THEN Dy!RN53(B!MulMag(B!MulMag(x.m, B!Pow10Mag(p)), B!Pow2Mag(x.e)), <<1>>)
-                   ELSE Dy!RN53(B!MulMag(x.m, B!Pow10Mag(p)), B!Pow2Mag(-x.e))
-IsWhole(r) == r[2] >= 0 \/ B!DivModMag(r[1], B!Pow2Mag(-r[2]))[2] = <<>>
+ScaledF64(x, p) == IF x.e >= 0 THEN Dy!RN53P2(B!MulMag(B!MulMag(x.m, B!Pow10Mag(p)), B!Pow2Mag(x.e)), 0)
+                   ELSE Dy!RN53P2(B!MulMag(x.m, B!Pow10Mag(p)), -x.e)
+IsWhole(r) == Dy!IsWholeMag(r[1], r[2])
 RECURSIVE DecPFrom(_, _)
 DecPFrom(x, p) == IF p > 22 THEN -1 ELSE IF IsWhole(ScaledF64(x, p)) THEN p ELSE DecPFrom(x, p + 1)
 DecP(x) == IF x.m = <<>> THEN 0 ELSE DecPFrom(x, 0)
@@ -560,11 +560,35 @@ FromViewOK(x, u, name, v) ==
       oa    == B!MulMag(ViewOffset(name).m, B!Pow2Mag(s))
       m1    == IF B!CmpMag(xa, oa) >= 0 THEN xa ELSE oa
       big   == IF B!CmpMag(m1, exact.m) >= 0 THEN m1 ELSE exact.m
-      tol   == B!AddMag(B!DivModMag(B!MulSmallMag(big, 4), B!Pow2Mag(52))[1], B!Pow2Mag(s + 1))
+      tol   == B!AddMag(Dy!Shr(B!MulSmallMag(big, 4), 52)[1], B!Pow2Mag(s + 1))
   IN  B!CmpMag(B!Sub(B!Mul(v, B!Pow2(s)), exact).m, tol) <= 0
 TrFromView == IsOp("from_view") /\ KeepD /\ KeepS /\ KeepW /\ UNCHANGED sw /\ IsEp(E.res) /\ IsFin(E.x)
                /\ e' = EV(E.res) /\ e'.ts = E.ts /\ M!Canonical(<<E.res.c, Mg(E.res.n)>>) /\ eout' = <<"epoch", e'>>
                /\ FromViewOK(E.x, E.u, E.view, e'.v)
+
+(* Epoch::from_unix_duration(d): the UTC count is the 25 567 days from 1900-01-01 to 1970-01-01 plus d, exactly *)
+TrFromUnixDur == IsOp("from_unix_dur") /\ KeepD /\ KeepS /\ KeepW /\ UNCHANGED sw /\ IsEp(E.res)
+               /\ e' = X!Ep(X!UTC, M!DAdd(DaysNs(Cal!N(1970, 1, 1)), DV(E.d))) /\ EpIs(E.res, e') /\ eout' = <<"epoch", e'>>
+
+(* Duration::compose_f64: each finite field times its unit by the rule of C18, summed (C01), negated for a *)
+(* negative sign.  Where a partial sum leaves the range the statements do not fix the order of summation,  *)
+(* and only a canonical value is required.                                                                 *)
+ComposeUnits == <<7, 6, 5, 4, 3, 2, 1>>
+RECURSIVE PartialSums(_, _, _)
+PartialSums(f, k, acc) == IF k > 7 THEN <<>> ELSE
+     LET nxt == B!Add(acc, F64TimesUnit(f[k], ComposeUnits[k])) IN <<nxt>> \o PartialSums(f, k + 1, nxt)
+TrComposeF64 == IsOp("compose_f64") /\ KeepE /\ KeepS /\ KeepW /\ IsDur(E.res)
+               /\ d' = DV(E.res) /\ M!Canonical(<<E.res.c, Mg(E.res.n)>>) /\ out' = <<"dur", d'>>
+               /\ ((\A k \in 1..7 : E.f[k].k = "fin") =>
+                    LET ps == PartialSums(E.f, 1, B!Zero) IN
+                      (\A k \in 1..7 : M!InRange(ps[k])) => d' = (IF E.sign < 0 THEN M!DNeg(ps[7]) ELSE ps[7]))
+(* Unit::in_seconds is the unit's factor in seconds as the nearest double; from_seconds its reciprocal (one *)
+(* more rounding: within one ulp, judged as 2 ulp of the next power of two)                                *)
+TrUnitConsts == IsOp("unit_consts") /\ KeepAll /\ UNCHANGED sw /\ IsFin(E.res.in_s) /\ IsFin(E.res.from_s)
+               /\ LET r == Dy!RN53(Ur[E.u].m, Ur[4].m) IN
+                    /\ ~E.res.in_s.neg /\ B!MulMag(E.res.in_s.m, B!Pow2Mag(IF E.res.in_s.e > r[2] THEN E.res.in_s.e - r[2] ELSE 0))
+                                         = B!MulMag(r[1], B!Pow2Mag(IF r[2] > E.res.in_s.e THEN r[2] - E.res.in_s.e ELSE 0))
+                    /\ Dy!WithinUlps(E.res.from_s, Ur[4], Ur[E.u].m, <<>>, 1)
 
 (* C20: day of year *)
 YearStart(ts, y) == X!FromFieldsRaw(ts, y, 1, 1, 0, 0, 0, 0)
@@ -581,7 +605,7 @@ TrFromDoy == IsOp("from_doy") /\ KeepD /\ KeepS /\ KeepW /\ UNCHANGED sw /\ IsEp
                        s == IF x.e < 0 THEN -x.e ELSE 0
                        exact == B!Add(B!Mul(B!Sub(YearStart(E.ts, E.y), Ur[7]), B!Pow2(s)),
                                       B!Mk(x.neg, B!MulMag(B!MulMag(x.m, Ur[7].m), B!Pow2Mag(s + x.e))))
-                       tol == B!AddMag(B!DivModMag(B!MulMag(B!MulSmallMag(B!MulMag(x.m, B!Pow2Mag(s + x.e)), 4), Ur[7].m), B!Pow2Mag(52))[1], B!Pow2Mag(s + 1))
+                       tol == B!AddMag(Dy!Shr(B!MulMag(B!MulSmallMag(B!MulMag(x.m, B!Pow2Mag(s + x.e)), 4), Ur[7].m), 52)[1], B!Pow2Mag(s + 1))
                    IN  B!CmpMag(B!Sub(B!Mul(e'.v, B!Pow2(s)), exact).m, tol) <= 0
 
 (* C10: numeric forms JD | MJD | SEC <float> <scale>: the string's number is logged as the double the *)
@@ -637,6 +661,7 @@ FloatNext ==
   \/ Dev_F1F
   \/ TrF64Unit \/ TrMulF64 \/ (TrToUnit /\ UNCHANGED sw) \/ TrSweepUnit
   \/ ((TrViewDur \/ TrViewF64 \/ TrDoy) /\ UNCHANGED sw) \/ TrFromView \/ TrFromDoy \/ TrParseNumeric
+  \/ TrFromUnixDur \/ TrComposeF64 \/ TrUnitConsts
 
 -----------------------------------------------------------------------------
 (* Extras: behaviour beyond the listed properties (spec/Extras.tla); run by `bin/check EXTRAS` only *)
